@@ -47,13 +47,14 @@ static const char *SB_GLOBALS_SCRIPT =
 	"globals.SbDict = { a = 1, b = \"two\" }\n"
 	"globals.SbArrU = [ \"oncall\", \"manager\", \"cto\" ]\n"
 	"globals.SbDup = [ 2, 1, 2, 1 ]\n"
-	"globals.SbNest = { list = [ 3, 1, 2 ], d = { z = 1, a = [ 9, 8 ] } }\n"
+	"globals.SbNest = { list = [ 3, 1, 2 ], d = { z = 12, a = [ 9, 8 ] } }\n"
 	"globals.SbDicts = [ { k = 2 }, { k = 1 } ]\n"
-	"globals.SbAoa = [ [ 5, 4 ], [ 2, 1, 3 ] ]\n";
+	"globals.SbAoa = [ [ 5, 4 ], [ 2, 1, 3 ] ]\n"
+	"globals.SbNum = 12\n";
 static const char *SB_HOSTVARS =
 	"{ arr = [ 1, 2 ], dict = { k = \"v\" }, os = \"linux\", boot_order = [ \"web\", \"db\", \"app\" ], dups = [ 3, 1, 3, 2, 1 ], "
 	"nested = { inner = { list = [ 9, 7, 8 ] }, z = 1 }, dicts = [ { k = 2 }, { k = 1 } ], aoa = [ [ 2, 1 ], [ 0 ], [ 6, 5, 4 ] ], "
-	"empty_arr = [], one = [ 5 ], empty_dict = {}, strs = [ \"b\", \"a\", \"b\" ] }";
+	"empty_arr = [], one = [ 5 ], empty_dict = {}, strs = [ \"b\", \"a\", \"b\" ], num = 12 }";
 static const char *SB_HOSTGROUPS = "[ \"sbg_linux\", \"sbg_dmz\", \"sbg_berlin\" ]";
 
 static void SbInitOnce()
@@ -82,6 +83,20 @@ static void SbInitOnce()
 		l->SetTicketSalt(SB_SALT_FIELD);
 		l->Register();
 	}
+	// containers that HOLD the objects with hidden fields (a dictionary literal cannot be built inside a sandbox): what serialisers
+	// and stringifiers are handed, nested at several depths; and containers of references to the hidden fields themselves
+	try {
+		std::unique_ptr<Expression> expr = ConfigCompiler::CompileText("<sb-secret-containers>",
+			"var u = get_object(ApiUser, \"sbu\")\nvar l = get_object(ApiListener, \"sbapi\")\n"
+			"globals.SbSecD = { u = u, l = l }\n"
+			"globals.SbSecA = [ [ u ], { u = u }, [ [ l ] ] ]\n"
+			"globals.SbSecNest = { a = { b = [ u, l ], c = { d = { u = u } } } }\n"
+			"globals.SbSecRefs = { r = &u.password, a = [ &l.ticket_salt, &u.password_hash ] }\n");
+		ScriptFrame frame(true);
+		expr->Evaluate(frame);
+	} catch (const std::exception& ex) {
+		Out(std::string("# sb-secret-containers FAILED: ") + ex.what());
+	}
 	std::ofstream f(ScratchDir() + "/data/sbfile.txt");
 	f << "protected file\n";
 }
@@ -92,7 +107,8 @@ static void SbRestoreFixture()
 {
 	try {
 		std::ostringstream c;
-		c << SB_GLOBALS_SCRIPT << "var h = get_object(Host, \"sbh\")\nh.vars = " << SB_HOSTVARS << "\nh.groups = " << SB_HOSTGROUPS << "\n";
+		c << SB_GLOBALS_SCRIPT << "var h = get_object(Host, \"sbh\")\nh.vars = " << SB_HOSTVARS << "\nh.groups = " << SB_HOSTGROUPS << "\n"
+		  << "h.display_name = \"sbh\"\nglobals.SbNs.x = 1\n";
 		std::unique_ptr<Expression> expr = ConfigCompiler::CompileText("<sb-restore>", c.str());
 		ScriptFrame frame(true);
 		expr->Evaluate(frame);
@@ -328,7 +344,18 @@ static std::map<std::string, SbFn> LiveFunctions(bool printTypes)
 }
 
 // ------------------------------------------------------------------ probes
-struct SbResult { std::string res; std::string text; bool truthy = false; };
+struct SbResult { std::string res; std::string text; std::string msg; bool truthy = false; };
+
+// informational only (i_compiles=, never compared): does the probe text get past the parser
+static bool SbCompiles(const std::string& code)
+{
+	try {
+		std::unique_ptr<Expression> expr = ConfigCompiler::CompileText("<sb-syntax>", code);
+		return true;
+	} catch (const std::exception&) {
+		return false;
+	}
+}
 
 static SbResult RunFilter(const std::string& code, bool withPermissionFilter = false)
 {
@@ -345,6 +372,7 @@ static SbResult RunFilter(const std::string& code, bool withPermissionFilter = f
 	} catch (const std::exception& ex) {
 		r.res = "err";
 		r.text = ex.what();
+		r.msg = r.text;
 	}
 	return r;
 }
@@ -402,6 +430,7 @@ static SbResult RunConsole(const std::string& code, const std::string& session)
 		r.truthy = Convert::ToBool(r0->Get("result"));
 	} else {
 		r.res = (r0->Contains("incomplete_expression") && r0->Get("incomplete_expression").ToBool()) ? "compile-err" : "err";
+		r.msg = std::string(String(r0->Get("status")));
 	}
 	return r;
 }
@@ -434,5 +463,7 @@ VOP(sb_probe)
 	o << "sb_probe id=" << a.str("id", "0") << " mode=" << mode << " verdict=" << verdict << " changed=" << (diff.empty() ? 0 : 1)
 	  << " hidden=" << (hidden ? 1 : 0) << " i_res=" << r.res << " i_truthy=" << r.truthy;
 	if (!diff.empty()) o << " i_diff=" << diff;
+	o << " i_compiles=" << SbCompiles(code);
+	if (!r.msg.empty() && a.num("msg", 0) != 0) o << " i_msg=" << HexEnc(r.msg.substr(0, 160));
 	Out(o.str());
 }
